@@ -224,7 +224,7 @@ def run(ck, progs):
         ck.attempt(r14bc, ck, prog)
         ck.attempt(r14e, ck, prog)
         b0 = len(ck.instances)
-        ck.attempt(c13.r13b, ck, prog)
+        ck.attempt(c13.r13b, ck, prog, premise=False)       # the quarter-protein premise is C13's clause, not a spelling matter
         for i in ck.instances[b0:]:
             i["rule"] = "R14d"
         for v in ck.violations:
